@@ -15,6 +15,9 @@ pub struct C07 {
     /// structured edge lists on up to 64 nodes in several orders (paths, stars, binomial merges, cycles,
     /// combs): deep union-find trees that no 5-node graph can produce
     pub big_graphs: Vec<(Vec<usize>, Vec<usize>, usize)>,
+    /// arrays for the single-argument primitives (thorough: length <= 8 over values <= 4; quick: = arrays)
+    pub singles: Vec<Vec<usize>>,
+    pub deep: bool,
     pub families: Vec<(&'static str, u64)>,
 }
 
@@ -118,6 +121,8 @@ impl C07 {
             long.extend(pats);
         }
         let big_graphs = structured_graphs();
+        let singles = if quick { arrays.clone() } else { ohmc_core::uni::lists(5, 8) };
+        let n1 = singles.len() as u64;
         let na = arrays.len() as u64;
         let ns = short.len() as u64;
         let families: Vec<(&'static str, u64)> = vec![
@@ -131,21 +136,21 @@ impl C07 {
             ("scatter_assign", ns * ns * ns),
             ("scatter_assign_constant", na * ns * 4),
             ("arith", na * na),
-            ("scalar_add", na * 4),
-            ("argsort", na),
+            ("scalar_add", n1 * 4),
+            ("argsort", n1),
             ("sort_by", ns * ns),
-            ("reductions", na),
+            ("reductions", n1),
             ("arange", 6 * 6),
             ("repeat", ns * ns),
-            ("quot_rem", na * 4),
+            ("quot_rem", n1 * 4),
             ("mul_constant_add", ns * ns * 4),
             ("components", graphs.len() as u64),
-            ("to_dense", na),
+            ("to_dense", n1),
             ("segmented_sum", ns * na),
-            ("segmented_arange", na),
-            ("bincount", na * 6),
-            ("sparse_bincount", na),
-            ("zero", na),
+            ("segmented_arange", n1),
+            ("bincount", n1 * 6),
+            ("sparse_bincount", n1),
+            ("zero", n1),
             ("scatter_sub_assign", ns * ns * ns),
             ("generic_elements", ns * ns),
             ("long_arrays", long.len() as u64),
@@ -153,7 +158,12 @@ impl C07 {
             ("large_values", 10 * 10 * 10 + 10 * 10 + 10 + 1),
             ("components_large_sparse", (LARGE.len() * 6) as u64),
         ];
-        C07 { arrays, short, graphs, long, big_graphs, families }
+        let mut families = families;
+        if !quick {
+            // every edge list of exactly 5 edges over 5 and over 6 nodes (unranked on the fly)
+            families.push(("components_five_edges", 5u64.pow(10) + 6u64.pow(10)));
+        }
+        C07 { arrays, short, graphs, long, big_graphs, singles, deep: !quick, families }
     }
 
     pub fn run(&self, fam: &str, i: u64, loc: &mut ohmc_core::explore::Local) {
@@ -187,6 +197,7 @@ impl C07 {
         let na = self.arrays.len() as u64;
         let ns = self.short.len() as u64;
         let arr = |k: u64| &self.arrays[k as usize];
+        let one = |k: u64| &self.singles[k as usize];
         let sh = |k: u64| &self.short[k as usize];
         match fam {
             "basic" => {
@@ -361,14 +372,14 @@ impl C07 {
                 Ok(true)
             }
             "scalar_add" => {
-                let (v, c) = (arr(i / 4), (i % 4) as usize);
+                let (v, c) = (one(i / 4), (i % 4) as usize);
                 let r: Arr<usize> = c + &a(v);
                 let e: Vec<usize> = v.iter().map(|x| x + c).collect();
                 ensure(r.0 == e, || format!("{} + &{:?} = {:?}", c, v, r.0))?;
                 Ok(true)
             }
             "argsort" => {
-                let v = arr(i);
+                let v = one(i);
                 let r = OrdArray::<K, usize>::argsort(&a(v));
                 check_sorting_perm(v, &r.0)?;
                 // a non-Copy, non-numeric key type
@@ -395,7 +406,7 @@ impl C07 {
                 Ok(true)
             }
             "reductions" => {
-                let v = arr(i);
+                let v = one(i);
                 let x = a(v);
                 ensure(NaturalArray::<K>::max(&x) == v.iter().max().cloned(), || format!("max({:?})", v))?;
                 let cs = NaturalArray::<K>::cumulative_sum(&x);
@@ -432,7 +443,7 @@ impl C07 {
                 Ok(true)
             }
             "quot_rem" => {
-                let (v, d) = (arr(i / 4), 1 + (i % 4) as usize);
+                let (v, d) = (one(i / 4), 1 + (i % 4) as usize);
                 let w: Vec<usize> = v.iter().map(|x| x * 3 + 1).collect();
                 let (q, r) = NaturalArray::<K>::quot_rem(&a(&w), d);
                 ensure(q.0 == w.iter().map(|x| x / d).collect::<Vec<_>>() && r.0 == w.iter().map(|x| x % d).collect::<Vec<_>>(), || format!("quot_rem({:?},{}) = ({:?},{:?})", w, d, q.0, r.0))?;
@@ -459,11 +470,25 @@ impl C07 {
                 ensure(same_partition(&lab.0, &rq), || format!("components({:?},{:?},{}) = {:?}: wrong partition (reference {:?})", s, t, n, lab.0, rq))?;
                 Ok(true)
             }
+            "components_five_edges" => {
+                let (n, mut r) = if i < 5u64.pow(10) { (5usize, i) } else { (6usize, i - 5u64.pow(10)) };
+                let mut d = vec![];
+                for _ in 0..10 {
+                    d.push((r % n as u64) as usize);
+                    r /= n as u64;
+                }
+                let (s, t) = (d[..5].to_vec(), d[5..].to_vec());
+                let (lab, k) = <Arr<usize> as NaturalArray<K>>::connected_components(&a(&s), &a(&t), n);
+                let pairs: Vec<(usize, usize)> = s.iter().cloned().zip(t.iter().cloned()).collect();
+                let (rq, rk) = classes(n, &pairs);
+                ensure(lab.0.len() == n && k == rk && is_dense_surjection(&lab.0, k) && same_partition(&lab.0, &rq), || format!("components({:?},{:?},{}) = ({:?},{}), reference classes {:?}", s, t, n, lab.0, k, rq))?;
+                Ok(true)
+            }
             "to_dense" => {
                 if BACKEND_NAME != "vec" {
                     return Ok(false);
                 }
-                let v = arr(i);
+                let v = one(i);
                 let (d, k) = open_hypergraphs::array::vec::to_dense(&v[..]);
                 ensure(d.len() == v.len() && is_dense_surjection(&d, k) && same_partition(&d, v), || format!("to_dense({:?}) = ({:?},{})", v, d, k))?;
                 // first-occurrence numbering is what the function documents by example
@@ -496,7 +521,7 @@ impl C07 {
                 Ok(true)
             }
             "segmented_arange" => {
-                let v = arr(i);
+                let v = one(i);
                 let r = NaturalArray::<K>::segmented_arange(&a(v));
                 let mut e = vec![];
                 for &k in v.iter() {
@@ -506,7 +531,7 @@ impl C07 {
                 Ok(true)
             }
             "bincount" => {
-                let (v, size) = (arr(i / 6), (i % 6) as usize);
+                let (v, size) = (one(i / 6), (i % 6) as usize);
                 if v.iter().any(|&x| x >= size) {
                     return Ok(false);
                 }
@@ -516,7 +541,7 @@ impl C07 {
                 Ok(true)
             }
             "sparse_bincount" => {
-                let v = arr(i);
+                let v = one(i);
                 let (keys, counts) = NaturalArray::<K>::sparse_bincount(&a(v));
                 ensure(keys.0.len() == counts.0.len(), || "sparse_bincount: unequal lengths".into())?;
                 let mut seen = vec![];
@@ -530,7 +555,7 @@ impl C07 {
                 Ok(true)
             }
             "zero" => {
-                let v = arr(i);
+                let v = one(i);
                 let r = NaturalArray::<K>::zero(&a(v));
                 let e: Vec<usize> = (0..v.len()).filter(|&j| v[j] == 0).collect();
                 ensure(r.0 == e, || format!("zero({:?}) = {:?}", v, r.0))?;
